@@ -79,7 +79,9 @@ func genTransport(r *wire.Rng) string {
 }
 
 func genHdrForm(r *wire.Rng) string {
-	switch r.Intn(16) {
+	switch r.Intn(17) {
+	case 16:
+		return "nomd" // no incoming metadata at all
 	case 0:
 		return "none"
 	case 1:
@@ -120,7 +122,8 @@ func genAuthSpec(r *wire.Rng, kind int, tr string, asciiOnly bool) []string {
 		if len(expected) > 0 && r.Chance(3, 5) {
 			aud = append(aud, wire.Pick(r, expected))
 		}
-		return []string{"oidc", tr, wire.Enc(wire.Pick(r, authnTDs)), wire.EncList(expected), genHdrForm(r), tok, sub, audKind, wire.EncList(aud)}
+		ctor := wire.Pick(r, []string{"j", "j", "d", "d", "j", "d", "jn", "dn"})
+		return []string{"oidc", tr, wire.Enc(wire.Pick(r, authnTDs)), wire.EncList(expected), genHdrForm(r), tok, sub, audKind, wire.EncList(aud), ctor}
 	case 1:
 		rev := reviewSpec{errMsg: "", authenticated: r.Chance(9, 10), username: wire.Pick(r, kubeUsers)}
 		if r.Chance(3, 5) {
@@ -240,8 +243,9 @@ var (
 	// federated trust domains: what their SPIFFE bundle endpoint serves (x509-svid / jwt-svid / use-less entries;
 	// entries with two certificates or none; RX is a CA that is a root of no trust domain)
 	tlsBundles = []string{"@x:R1", "@x:R1;j:RX", "@j:RX;x:R1", "@x:R1;x:R2", "@j:RX", "@x:R1+RX", "@x:R1;x:", "@x:R1;j:", "@x:R1;j:R2+RX", "@n:RX;x:R1", "@x:RX",
-		"@", "@j:R1", "@x:R1;j:RX;j:R3", "@n:R1", "@x:;j:RX", "@x:R2;j:R1"}
-	tlsURIs = []string{"spiffe://td1/ns/a/sa/b", "spiffe://td2/ns/a/sa/b", "spiffe://td1/ns/istio-system/sa/ztunnel", "spiffe://cluster.local/ns/a/sa/b",
+		"@", "@j:R1", "@x:R1;j:RX;j:R3", "@n:R1", "@x:;j:RX", "@x:R2;j:R1", "@!flaky;x:R1;j:RX", "@!flaky;j:RX"}
+	tlsBundlesSlow = []string{"@!500", "@!badurl"} // the fetch is retried for ~150 ms before it is given up: rare
+	tlsURIs        = []string{"spiffe://td1/ns/a/sa/b", "spiffe://td2/ns/a/sa/b", "spiffe://td1/ns/istio-system/sa/ztunnel", "spiffe://cluster.local/ns/a/sa/b",
 		"spiffe://td3/ns/a/sa/b", "spiffe://td1/x", "spiffe://td1/ns/a/sa/b/c", "https://td1/ns/a/sa/b", "spiffe://td1,td2/ns/a/sa/b",
 		"SPIFFE://td1/ns/a/sa/b", "Spiffe://td2/ns/a/sa/b", "sPiFfE://td1/ns/istio-system/sa/ztunnel", "SPIFFE://td3/ns/a/sa/b", "SPIFFE://td1/x"}
 )
@@ -252,6 +256,9 @@ func genTLSCert(r *wire.Rng, tr string) []string {
 	if r.Chance(1, 4) {
 		// td1 (sometimes td2) is a federated trust domain
 		pools = []string{"td1=" + wire.Pick(r, tlsBundles)}
+		if r.Chance(1, 40) {
+			pools = []string{"td1=" + wire.Pick(r, tlsBundlesSlow)}
+		}
 		switch r.Intn(4) {
 		case 0:
 			pools = append(pools, "td2=R2")
@@ -263,7 +270,8 @@ func genTLSCert(r *wire.Rng, tr string) []string {
 		if r.Chance(3, 4) {
 			// a client whose certificate comes from one of the CAs the bundle mentions - in whatever role
 			var names []string
-			for _, k := range parseBundleKeys(strings.TrimPrefix(strings.SplitN(pools[len(pools)-1], "=", 2)[1], "@")) {
+			_, ks := bundleFetch(strings.TrimPrefix(strings.SplitN(pools[len(pools)-1], "=", 2)[1], "@"))
+			for _, k := range ks {
 				names = append(names, k.certs...)
 			}
 			names = append(names, "RX", "R1")
@@ -410,6 +418,9 @@ func credentialClause(f []string, caller *security.Caller, via string, mesh *str
 					inter = true
 				}
 			}
+		}
+		if len(f) > 9 && strings.HasSuffix(f[9], "n") {
+			return "oidc-identity-without-mesh-config"
 		}
 		if !okTok || !inter {
 			return "oidc-unvalidated-credential"
@@ -558,6 +569,11 @@ func (j *authnJudge) flush() {
 
 func (j *authnJudge) finish() {
 	j.flush()
+	if j.s.pki != nil {
+		for k, v := range j.s.pki.modes {
+			j.stats[k] += v
+		}
+	}
 	if j.out != nil {
 		j.out.Line(statsLine(j.stats)...)
 		j.out.Flush()
@@ -634,10 +650,14 @@ func registeredRoots(pools []string, td string) (roots map[string]bool, has, ok 
 	for _, p := range pools {
 		t, rs, _ := strings.Cut(p, "=")
 		var names []string
-		if keys, fed := strings.CutPrefix(rs, "@"); fed {
+		if spec, fed := strings.CutPrefix(rs, "@"); fed {
+			// an endpoint that cannot be fetched (no URL; out of order for longer than the retries last) is refused like
+			// a malformed bundle; one that recovers within the retries is as good as a healthy one
+			behaviour, keys := bundleFetch(spec)
 			var good bool
-			if names, good = bundleRoots(parseBundleKeys(keys)); !good {
+			if names, good = bundleRoots(keys); !good || behaviour == "500" || behaviour == "badurl" {
 				ok = false
+				names = nil
 			}
 		} else {
 			names = strings.Split(rs, "+")
